@@ -1,7 +1,7 @@
 """Instrumented circuit class and case runner for the C09 check (shots are independent noise realisations).
 
 Everything that has to exist inside worker processes lives here, in an importable module, so that it pickles
-into the workers of `multiprocessing.Pool` under the `fork` AND the `spawn` start method.
+into the workers of `multiprocessing.Pool` under the `fork`, the `spawn` AND the `forkserver` (numpy preloaded) start method.
 
 `SpyCircuit` is the repository's `BinaryCircuit` with three observation points (no behaviour is changed, nothing
 is drawn from numpy's global generator by the instrumentation):
@@ -88,6 +88,9 @@ class SpyCircuit(BinaryCircuit):
         SpyCircuit._next_index += 1
         self.c09_begin = None
         self.c09_gates = []
+        # the trace directory travels with the pickled instance: workers forked from a fork server inherit the SERVER's
+        # environment (that of the first run), not the parent's
+        self.c09_dir = os.environ.get(TRACE_ENV)
 
     def apply(self, gate, *a, **kw):
         import hashlib
@@ -113,7 +116,7 @@ class SpyCircuit(BinaryCircuit):
                "start": state_digest(start), "end": end_d, "len": gauss_steps(start, end_d),
                "peek": peek(start), "probs": [float(x).hex() for x in np.square(np.absolute(psi))],
                "gates": list(self.c09_gates)}
-        d = os.environ.get(TRACE_ENV)
+        d = getattr(self, "c09_dir", None) or os.environ.get(TRACE_ENV)
         if d:
             name = f"shot-{self.c09_index}-{pid}-{t1}"
             tmp = os.path.join(d, "." + name + ".tmp")
@@ -266,6 +269,10 @@ def cli():
     sm = req.get("start_method")
     if sm:
         multiprocessing.set_start_method(sm, force=True)
+    if sm == "forkserver":
+        # the intended use of this start method: the heavy modules are imported once in the server and every worker is
+        # forked from it - so every worker inherits the server's numpy generator
+        multiprocessing.set_forkserver_preload(["numpy", "numpy.random", "quantum_gates.simulators", "qgv.c09_shots"])
     real_stdout = sys.stdout
     sys.stdout = sys.stderr                      # nothing but the answer goes to stdout
     out = []
